@@ -1,6 +1,8 @@
 package main
 
 import (
+	"fmt"
+	"strings"
 	"go/token"
 	"go/types"
 )
@@ -44,9 +46,19 @@ func (e *Exec) binop(fr *frame, st *State, op token.Token, x, y Val, xt, rt type
 		switch op {
 		case token.ADD:
 			return Val{T: app("scat", x.T, y.T), S: sStr}
-		case token.EQL:
-			return b(eq(x.T, y.T))
-		case token.NEQ:
+		case token.EQL, token.NEQ:
+			if strings.HasPrefix(x.T, "(runes_str ") || strings.HasPrefix(y.T, "(runes_str ") {
+				// extensionality, instantiated for this comparison: strings of equal
+				// length with equal bytes are equal
+				e.qn++
+				k := fmt.Sprintf("k_q%d", e.qn)
+				e.ctx.assume(imp(st.pc, imp(and(eq(app("slen", x.T), app("slen", y.T)),
+					fmt.Sprintf("(forall ((%s Int)) (! (=> (and (<= 0 %s) (< %s (slen %s))) (= (sat %s %s) (sat %s %s))) :pattern ((sat %s %s))))", k, k, k, x.T, x.T, k, y.T, k, x.T, k)),
+					eq(x.T, y.T))))
+			}
+			if op == token.EQL {
+				return b(eq(x.T, y.T))
+			}
 			return b(not(eq(x.T, y.T)))
 		default:
 			switch op {
@@ -240,8 +252,20 @@ func (e *Exec) convert(fr *frame, st *State, x Val, from, to types.Type, pos tok
 			}
 			return Val{T: app("bytes_str", arr, slOff(x.T), slLen(x.T)), S: sStr}
 		}
-		e.ctx.declareFun("runes_str", []string{arraySort(sInt, sInt), sInt, sInt}, sStr)
-		return Val{T: app("runes_str", arr, slOff(x.T), slLen(x.T)), S: sStr}
+		// string([]rune): a function of the element heap and the slice; for ASCII
+		// runes the bytes of the result are the runes themselves
+		_ = arr
+		ht := e.heapTerm(st, h)
+		hs := arraySort(sInt, arraySort(sInt, sInt))
+		e.ctx.declareFun("runes_str", []string{hs, sSlice}, sStr)
+		if !e.boxAx["runes_str"] {
+			e.boxAx["runes_str"] = true
+			el := func(k string) string { return e.elemAt("H", el0(from), "s", k) }
+			e.ctx.assumeGlobal(fmt.Sprintf("(forall ((H %s) (s Slice)) (! (=> (forall ((k Int)) (=> (and (<= 0 k) (< k (sl_len s))) (and (< 0 %s) (< %s 128)))) (and (= (slen (runes_str H s)) (sl_len s)) (forall ((j Int)) (! (=> (and (<= 0 j) (< j (sl_len s))) (= (sat (runes_str H s) j) %s)) :pattern ((sat (runes_str H s) j)))))) :pattern ((runes_str H s))))",
+				hs, el("k"), el("k"), el("j")))
+			e.trust("string([]rune) of ASCII runes has exactly those bytes")
+		}
+		return Val{T: app("runes_str", ht, x.T), S: sStr}
 	case fs == ts:
 		return Val{T: x.T, S: ts}
 	}
@@ -256,3 +280,5 @@ func rangeWithin(flo, fhi, tlo, thi string) bool {
 }
 
 // bit-vector mode is implemented in bv.go
+
+func el0(t types.Type) types.Type { return t.Underlying().(*types.Slice).Elem() }
